@@ -42,6 +42,7 @@ type Profile struct {
 	DupLabels  bool
 	NoStaleCtx bool // predicates/state blocks do not observe c.text / c.pos (avoid Q-STALE-CTX)
 	NoFFFDLit  bool // no literal contains U+FFFD (avoid Q-LIT-EOF)
+	TwoLR      int  // percentage of grammars made of two (or three) separate mutually left-recursive components
 	MemoPred   int  // percentage of sequences that start with an optional labelled item followed by a predicate on that label
 	UntilIdiom int  // percentage of sequences that are the "until" idiom (!"x" .)* !.
 	RuleLabels bool // label names are made distinct between rules (x0, x1, ..)
@@ -893,6 +894,40 @@ func GenGrammar(p *Profile, seed int64) (rules []*Rule, blocks map[int]*Block, g
 	}
 	if p.LR && g.pct(85) {
 		g.genLRShape(rules)
+	}
+	if g.pct(p.TwoLR) {
+		// S <- A0 / A1 [/ A2] ; Ai <- Bi 'x' / 'a' ; Bi <- Ai 'y' / 'b' [; one component without a common rule]
+		mk := func(k Kind) *Node { return g.newNode(k) }
+		ref := func(nm string) *Node { n := mk(KRef); n.Ref = nm; return n }
+		lit := func(sv string) *Node { n := mk(KLit); n.Lit = sv; return n }
+		seq := func(ks ...*Node) *Node { n := mk(KSeq); n.Kids = ks; return n }
+		alt := func(ks ...*Node) *Node { n := mk(KAlt); n.Kids = ks; return n }
+		ncomp := 2 + g.r.Intn(2)
+		start := mk(KAlt)
+		rules = nil
+		names := []string{"Pa", "Pb", "Qa", "Qb", "Ea", "Eb"}
+		g.r.Shuffle(3, func(i, j int) { // which component gets which name pair
+			names[2*i], names[2*j] = names[2*j], names[2*i]
+			names[2*i+1], names[2*j+1] = names[2*j+1], names[2*i+1]
+		})
+		var body []*Rule
+		for ci := 0; ci < ncomp; ci++ {
+			a, b := names[2*ci], names[2*ci+1]
+			start.Kids = append(start.Kids, ref(a))
+			body = append(body, &Rule{Name: a, Expr: alt(seq(ref(b), lit("x")), lit("a"))})
+			if g.pct(25) {
+				// both rules also recurse into themselves: no rule is common to all cycles
+				body[len(body)-1].Expr = alt(seq(ref(a), lit("p")), seq(ref(b), lit("x")), lit("a"))
+				body = append(body, &Rule{Name: b, Expr: alt(seq(ref(b), lit("q")), seq(ref(a), lit("y")), lit("b"))})
+			} else {
+				body = append(body, &Rule{Name: b, Expr: alt(seq(ref(a), lit("y")), lit("b"))})
+			}
+		}
+		rules = append([]*Rule{{Name: "R0", Expr: start}}, body...)
+		for _, r := range rules {
+			r.Expr = normalize(r.Expr)
+		}
+		return rules, g.blocks, g
 	}
 	if p.RuleLabels {
 		// labels of different rules do not clash: inlining a rule into its user (-optimize-grammar) otherwise lets the
